@@ -216,8 +216,8 @@ op('broadcast_fn', 'mem', C04, ALL, 's', 'b', 'xsimd::broadcast<{T}, A>(s)', WS.
 op('ctor_list', 'mem', C04, ALL, 'E', 'b', 'B_<{T}>({ELIST})', WS.ctor_spec, whole=True)
 op('bget', 'mem', C04, ALL, 'b', 's', 'a.get({i})', WS.bget_spec, whole=True,
    variants=lambda ty, cfg: [{'i': k} for k in sorted(set([0, 1, _nl(ty, cfg) // 2, _nl(ty, cfg) - 1]))])
-op('gather', 'mem', C04, [t for t in ALL if t.bits >= 32], 'px', 'b', 'B_<{T}>::gather(p, x)', WS.gather_spec, whole=True)
-op('scatter', 'mem', C04, [t for t in ALL if t.bits >= 32], 'bPx', 'void', 'a.scatter(o, x)', WS.scatter_spec, whole=True)
+op('gather', 'mem', C04, ALL, 'px', 'b', 'B_<{T}>::gather(p, x)', WS.gather_spec, whole=True)
+op('scatter', 'mem', C04, ALL, 'bPx', 'void', 'a.scatter(o, x)', WS.scatter_spec, whole=True)
 
 # ---- C19 (IR part: constant -> run-time conversion, constant-taking APIs vs their run-time forms) ---------------
 C19 = ['C19']
